@@ -5,6 +5,8 @@ package c20
 import (
 	"encoding/json"
 	"fmt"
+	"os"
+	"strconv"
 	"strings"
 	"testing"
 
@@ -13,7 +15,20 @@ import (
 	"verifharness/evid"
 )
 
+// rapid derives the seed of case i as seed+i and the driver gives consecutive seeds to the shards of a spec, so case i+1
+// of shard s would repeat case i of shard s+1. Shard s therefore consumes s extra draws first, which shifts its stream.
+var shardIndex = func() int {
+	s, _ := strconv.Atoi(os.Getenv("VERIF_SHARD"))
+	if s < 0 || s > 64 {
+		return 0
+	}
+	return s
+}()
+
 func drawCommon(t *rapid.T, kind string) *Workload {
+	for i := 0; i < shardIndex; i++ {
+		rapid.Uint64().Draw(t, "shardSalt")
+	}
 	return &Workload{
 		Kind:   kind,
 		Procs:  rapid.SampledFrom([]int{2, 4, 8, 16}).Draw(t, "procs"),
@@ -82,6 +97,10 @@ func applyKnown(c *ChainW) int64 {
 	if isKnown(sigUnderflow) {
 		c.StableFrom = true
 	}
+	if isKnown(sigDeletedTip) {
+		c.NoRemoveOrd = true
+		excluded++
+	}
 	return excluded
 }
 
@@ -106,6 +125,7 @@ func drawChain(t *rapid.T) *Workload {
 		WriterYield: rapid.IntRange(0, 2).Draw(t, "writerYield"),
 		Listen:      rapid.IntRange(2, 250).Draw(t, "listen"),
 		MinReader:   rapid.SampledFrom([]int{100, 400, 1000}).Draw(t, "minReaderOps"),
+		Subscribers: rapid.IntRange(0, 2).Draw(t, "subscribers"),
 	}
 	if c.Finality && c.MaxDepth > 3 {
 		c.MaxDepth = 3
@@ -135,7 +155,7 @@ func TestChainReadersWriter(t *testing.T) {
 		o := runChild(w)
 		verdict(t, w, o)
 		nontrivial := false
-		labels := []string{"chain", fmt.Sprintf("chain:cache-%d", w.Chain.Cache), fmt.Sprintf("chain:procs-%d", w.Procs), fmt.Sprintf("chain:finality-%v", w.Chain.Finality)}
+		labels := []string{"chain", fmt.Sprintf("chain:cache-%d", w.Chain.Cache), fmt.Sprintf("chain:procs-%d", w.Procs), fmt.Sprintf("chain:finality-%v", w.Chain.Finality), fmt.Sprintf("chain:subscribers-%d", w.Chain.Subscribers)}
 		if o.res != nil {
 			wr := o.res.Counters["writer:add"] + o.res.Counters["writer:remove"]
 			nontrivial = len(w.Chain.Readers) >= 4 && wr >= 200 && o.res.Counters["bulk-lookups"] >= 1000 && o.res.Done
